@@ -194,6 +194,233 @@ def r07k(rep, prog, only_files=None):
     return n
 
 
+ORDER_ALGOS = ('std::sort', 'std::stable_sort', 'std::partial_sort', 'std::nth_element', 'std::make_heap', 'std::push_heap', 'std::pop_heap',
+               'std::sort_heap', 'std::lower_bound', 'std::upper_bound', 'std::binary_search', 'std::equal_range', 'std::merge', 'std::inplace_merge',
+               'std::min_element', 'std::max_element', 'std::is_sorted', 'std::set_union', 'std::set_difference', 'std::set_intersection',
+               'std::set_symmetric_difference', 'std::includes')
+
+
+def _subst_key(k, m):
+    if isinstance(k, tuple):
+        if len(k) == 2 and k[0] == 'v' and k[1] in m:
+            return ('v', m[k[1]])
+        return tuple(_subst_key(x, m) for x in k)
+    return k
+
+
+def comparator_reflexive(prog, lf):
+    """value of comp(x, x) for a two-parameter comparator: True / False / None (not evaluable).  Comparisons whose two sides are the
+    same expression over the two parameters (a.w < b.w, get<1>(a) <= get<1>(b), w[a] > w[b]) are evaluated at equality."""
+    if lf is None or lf.body is None or len(lf.param_ids) != 2 or lf.cfg is None:
+        return None
+    a, b = lf.param_ids
+    m = {a: 'X', b: 'X'}
+    EQ = {'<': ex.FALSE, '>': ex.FALSE, '<=': ex.TRUE, '>=': ex.TRUE, '==': ex.TRUE, '!=': ex.FALSE}
+
+    def atomize(leaf):
+        s_ = leaf.strip_all()
+        ops = None
+        if s_.k == 'BinaryOperator' and s_.op in EQ:
+            ops = s_.c
+        elif s_.k == 'CXXOperatorCallExpr' and s_.op in EQ and len(s_.c) == 3:
+            ops = s_.c[1:]
+        if ops is not None:
+            k0, k1 = _subst_key(ex.key(ops[0]), m), _subst_key(ex.key(ops[1]), m)
+            if k0 == k1 and (ex.refs_var(ops[0], a) or ex.refs_var(ops[0], b)):
+                return EQ[s_.op]
+        if s_.k in ex.CALL_KINDS and s_.callee and s_.callee.get('in_repo') and s_.callee_id is not None and s_.k != 'CXXOperatorCallExpr':
+            # a nested comparator called with the two parameters: comp2(a, b) at a == b
+            args = s_.args()
+            if len(args) == 2 and {ex.var_of(args[0]), ex.var_of(args[1])} == {a, b}:
+                v = comparator_reflexive(prog, prog.fn_of_fref(s_.callee_id))
+                if v is not None:
+                    return ex.TRUE if v else ex.FALSE
+        return None
+    total = ex.FALSE
+    for r in ex.returns_of(lf):
+        if not r.c:
+            return None
+        v = ex.formula(r.c[0], atomize)
+        if v is None:
+            return None
+        pc = ex.path_condition(lf.cfg, r, atomize)
+        total = ex.f_or(total, ex.f_and(pc, v))
+    if ex.f_atoms(total):
+        return None
+    return bool(ex.f_eval(total, {}))
+
+
+def r07o(rep, prog, only_files=None):
+    """comparators handed to the ordering algorithms of the standard library are irreflexive (comp(x, x) == false): std::sort with a
+    comparator that answers true for equal elements (`<=` in the last rung of a tie-break chain) runs its unguarded partition loops
+    off the range - a heap over-read / segfault on inputs with enough equal keys, silent on the small test graphs"""
+    n = 0
+    what = 'the comparator is a strict ordering: comp(x, x) is false'
+    for fn in prog.functions:
+        if fn.implicit or not (fn.file.startswith(env.REPO + '/include') or fn.file.startswith(env.REPO + '/src') or fn.file.startswith(env.WITNESS + '/positive')):
+            continue
+        if only_files and not any(x in fn.file for x in only_files):
+            continue
+        for c in fn.walk():
+            if c.k != 'CallExpr' or not c.callee or c.callee['g'] not in ORDER_ALGOS or not c.args():
+                continue
+            comp = c.args()[-1].strip_all()
+            lfs = []
+            if comp.k == 'LambdaExpr':
+                lfs = [prog.fn_of_fref(op) for op in comp.j.get('lambda_ops', ())]
+            else:
+                v = ex.var_of(comp)
+                ty = prog.base_type(comp.j.get('t')) or {}
+                rec = ty.get('rec') or ''
+                if rec.startswith('parmcb::') or (ty.get('canon') or '').startswith('parmcb::'):
+                    lfs = [f for f in prog.functions if f.fref['name'] == 'operator()' and f.g.startswith(rec + '::') and len(f.param_ids) == 2]
+                elif v is not None:
+                    d = ex.unique_def(fn, v)
+                    if d is not None and d.strip_all().k == 'LambdaExpr':
+                        lfs = [prog.fn_of_fref(op) for op in d.strip_all().j.get('lambda_ops', ())]
+            lfs = [f for f in lfs if f is not None and f.body is not None and len(f.param_ids) == 2]
+            for lf in lfs[:1]:
+                n += 1
+                v = comparator_reflexive(prog, lf)
+                if v is True:
+                    rep.violation('R07o', c, fn, what, 'the comparator of `%s` answers true for two equal elements (a `<=` / `>=` / `==` rung decides the tie): not a strict '
+                                  'weak ordering - undefined behaviour in %s (reads and swaps outside the range once enough keys tie)' % (
+                                      c.text(40), c.callee['g']), key='R07o|%s|%d' % (fn.g, c.line))
+                elif v is False:
+                    rep.ok('R07o', c, fn, what, 'comp(x, x) evaluates to false')
+                else:
+                    rep.info('R07o', c, fn, what, 'comp(x, x) not evaluable from the comparator text')
+    return n
+
+
+def _scalar_kind(prog, t):
+    ty = prog.base_type(t) if t is not None else None
+    c = ((ty or {}).get('canon') or (ty or {}).get('s') or '').replace('const ', '').strip()
+    if c in ('double', 'float', 'long double'):
+        return ('float', {'float': 32, 'double': 64, 'long double': 80}[c])
+    table = {'unsigned char': 8, 'signed char': 8, 'char': 8, 'unsigned short': 16, 'short': 16, 'unsigned int': 32, 'int': 32,
+             'unsigned long': 64, 'long': 64, 'unsigned long long': 64, 'long long': 64, 'bool': 1}
+    if c in table:
+        return ('int', table[c])
+    return None
+
+
+def r07p(rep, prog, only_files=None):
+    """std::accumulate / std::reduce / std::inner_product sum in the type of their *initial value*: `accumulate(w.begin(), w.end(), 0)` over
+    double weights adds every partial sum back into an int (fractions are dropped, a sum of 2^31 or more is an out-of-range
+    floating -> integral conversion: undefined behaviour)"""
+    n = 0
+    what = 'a fold over the weights accumulates in a type at least as wide as the elements'
+    for fn in prog.functions:
+        if fn.implicit or not (fn.file.startswith(env.REPO + '/include') or fn.file.startswith(env.REPO + '/src') or fn.file.startswith(env.WITNESS + '/positive')):
+            continue
+        if only_files and not any(x in fn.file for x in only_files):
+            continue
+        for c in fn.walk():
+            if c.k != 'CallExpr' or not c.callee or c.callee['g'] not in ('std::accumulate', 'std::reduce', 'std::inner_product') or len(c.args()) < 3:
+                continue
+            ix = 3 if c.callee['g'] == 'std::inner_product' else 2
+            if len(c.args()) <= ix:
+                continue
+            acc = _scalar_kind(prog, c.j.get('t'))
+            a0 = c.args()[0].strip_all()
+            elem = None
+            if a0.k == 'CXXMemberCallExpr' and a0.callee and a0.callee['name'] in ('begin', 'cbegin') and a0.object_arg() is not None:
+                ct = prog.base_type(a0.object_arg().strip_all().j.get('t')) or {}
+                ta = ct.get('targs') or []
+                if ta and isinstance(ta[0], int):
+                    elem = _scalar_kind(prog, ta[0])
+            n += 1
+            if acc is None or elem is None:
+                rep.info('R07p', c, fn, what, 'accumulator / element type not scalar')
+                continue
+            if (acc[0] == 'int' and elem[0] == 'float') or (acc[0] == elem[0] and acc[1] < elem[1]):
+                rep.violation('R07p', c, fn, what, '`%s` folds %s elements into an accumulator of type `%s` (the type of the initial value `%s`): every partial sum is '
+                              'truncated, and a sum outside its range is undefined behaviour' % (
+                                  c.text(50), 'floating-point' if elem[0] == 'float' else '%d-bit' % elem[1],
+                                  (prog.base_type(c.j.get('t')) or {}).get('s', '?'), c.args()[ix].text(12)), key='R07p|%s|%d' % (fn.g, c.line))
+            else:
+                rep.ok('R07p', c, fn, what, 'accumulator %s%d, elements %s%d' % (acc + elem))
+    return n
+
+
+REINIT_METHODS = ('clear', 'assign', 'swap', 'reset', 'operator=')
+
+
+def _use_kind(n):
+    """how the DeclRefExpr n is used: 'reinit' (x.clear(), x = .., x.assign(..), swap), 'move' (argument of std::move / std::forward),
+    'decl-free' uses that do not read the value (sizeof, address taken for a reinit helper are not modelled) or 'use'"""
+    p = n.parent
+    while p is not None and p.k in ('ImplicitCastExpr', 'ParenExpr', 'MaterializeTemporaryExpr', 'CXXBindTemporaryExpr'):
+        p = p.parent
+    if p is None:
+        return 'use'
+    if p.k == 'MemberExpr':
+        q = p.parent
+        if q is not None and q.k == 'CXXMemberCallExpr' and q.callee and q.callee['name'] in REINIT_METHODS:
+            return 'reinit'
+        return 'use'
+    if p.k == 'CXXOperatorCallExpr' and p.op == '=' and len(p.c) >= 2 and p.c[1].strip_all() is n:
+        return 'reinit'
+    if p.k == 'BinaryOperator' and p.op == '=' and p.c[0].strip_all() is n:
+        return 'reinit'
+    if p.k == 'CallExpr' and p.callee and p.callee['g'] in ('std::move', 'std::forward'):
+        return 'move'
+    if p.k == 'CallExpr' and p.callee and p.callee['g'] in ('std::swap',):
+        return 'reinit'
+    return 'use'
+
+
+def r07q(rep, prog, only_files=None):
+    """no use of a moved-from local: after `std::move(x)` has been handed to a sink, the next thing that happens to x on every path is a
+    re-initialisation (x.clear(), assignment, a fresh declaration in the next loop iteration).  A list that is emitted with
+    `*out++ = std::move(cycle)` and appended to again in the next iteration relies on the consumer having emptied it - an output iterator
+    that only observes its argument leaves it full, and every later cycle then carries the edges of the earlier ones."""
+    n = 0
+    what = 'a moved-from local is re-initialised before it is used again'
+    for fn in prog.functions:
+        if fn.implicit or fn.body is None or fn.cfg is None:
+            continue
+        if not (fn.file.startswith(env.REPO + '/include') or fn.file.startswith(env.WITNESS + '/positive')):
+            continue
+        if only_files and not any(x in fn.file for x in only_files):
+            continue
+        for mv in fn.walk():
+            if not (mv.k == 'CallExpr' and mv.callee and mv.callee['g'] == 'std::move' and len(mv.args()) == 1):
+                continue
+            a = mv.args()[0].strip_all()
+            if a.k != 'DeclRefExpr' or a.decl_id is None:
+                continue
+            v = a.decl_id
+            vd = prog.vars[v] if v < len(prog.vars) else None
+            if not vd or vd.get('kind') not in ('local', 'param') or vd.get('fn') != fn.fref_id:
+                continue
+            ty = prog.type(vd.get('ty')) or {}
+            if 'base' in ty and ty.get('s', '').rstrip().endswith('&') and not ty.get('s', '').rstrip().endswith('&&'):
+                continue        # an lvalue reference: the object belongs to someone else (not decided here)
+            bt = prog.base_type(vd.get('ty')) or {}
+            if not (bt.get('rec') or '').startswith('std::'):
+                continue        # only standard containers / strings: their moved-from state is "valid but unspecified"
+            # the move only matters if its result initialises / is assigned to something (a cast alone moves nothing)
+            n += 1
+
+            def stop(x, v=v):
+                if x.k == 'VarDecl' and x.decl_id == v:
+                    return True
+                if x.k == 'DeclStmt' and any(c_.k == 'VarDecl' and c_.decl_id == v for c_ in x.c):
+                    return True
+                return x.k == 'DeclRefExpr' and x.decl_id == v and _use_kind(x) == 'reinit'
+            later = [x for x in ex.flow_after(fn.cfg, mv, stop) if x.k == 'DeclRefExpr' and x.decl_id == v and _use_kind(x) == 'use']
+            if later:
+                u = min(later, key=lambda x: (x.line, x.i))
+                rep.violation('R07q', mv, fn, what, '`%s` is moved from at line %d and used again at line %d (`%s`) without being cleared or re-assigned in between: '
+                              'its contents are whatever the consumer left behind' % (vd['name'], mv.line, u.line, (u.parent.parent or u.parent).text(40) if u.parent is not None else u.text(20)),
+                              key='R07q|%s|%s' % (fn.g, vd['name']))
+            else:
+                rep.ok('R07q', mv, fn, what, '`%s`: no use after the move without re-initialisation' % vd['name'])
+    return n
+
+
 def r07l(rep, prog, only_files=None):
     """integer division / modulo whose divisor is the size of a container (or a count) that can be zero for a valid input - a forest has no
     feedback vertices, no candidate cycles, no trees - is a division by zero (SIGFPE).  Flagged when the divisor is `X.size()` / `num_vertices` /
@@ -285,24 +512,41 @@ def r07h(rep, prog, only_files=None):
                     if len(asg) == 1:
                         defs[xv] = asg[0][1]
             n += 1
-            what = 'the size passed to `%s` does not wrap around for an empty graph' % d.callee['name']
-
-            def bind(s_):
-                if s_.k == 'CallExpr' and s_.callee and s_.callee['g'] in ('boost::num_vertices', 'boost::num_edges'):
-                    return 0
-                if s_.k == 'CXXMemberCallExpr' and s_.callee and s_.callee['name'] == 'size':
-                    return 0
-                return None
-            try:
-                val = ex.ceval(arg, bind, defs)
-            except ex.Unknown as e:
-                rep.info('R07h', d, fn, what, 'not evaluable for the empty graph (%s)' % e)
-                continue
-            if val >= (1 << 62):
-                rep.violation('R07h', d, fn, what, '`%s` evaluates to %d for a graph without vertices and edges (unsigned wrap-around): the call throws '
-                              'std::length_error / std::bad_alloc on a valid input' % (arg.text(40), val), key='R07h|%s|%s' % (fn.g, d.callee['name']))
+            what = 'the size passed to `%s` does not wrap around for any graph (empty graph, isolated vertices, forests)' % d.callee['name']
+            # evaluated in its C++ arithmetic for every small simple graph shape (m edges, n vertices, m <= n(n-1)/2); size() of a container is
+            # only known (0) for the empty graph; the guards of the call are evaluated in the same model
+            import itertools as _it
+            guards = list(ex.ast_conditions(d))
+            bad = None
+            evaluated = 0
+            last_err = None
+            for m_, n_ in [(0, 0)] + [(m_, n_) for n_ in range(1, 7) for m_ in range(0, 7) if m_ <= n_ * (n_ - 1) // 2]:
+                def bind(s_, m_=m_, n_=n_):
+                    if s_.k == 'CallExpr' and s_.callee and s_.callee['g'] in ('boost::num_vertices', 'boost::num_edges'):
+                        return n_ if s_.callee['name'] == 'num_vertices' else m_
+                    if s_.k == 'CXXMemberCallExpr' and s_.callee and s_.callee['name'] == 'size':
+                        if (m_, n_) == (0, 0):
+                            return 0
+                        raise ex.Unknown('size() of a container for a non-empty graph')
+                    return None
+                try:
+                    if not all(bool(ex.ceval(c_, bind, defs)) == pol_ for (c_, pol_) in guards):
+                        continue
+                    val = ex.ceval(arg, bind, defs)
+                except ex.Unknown as e:
+                    last_err = e
+                    continue
+                evaluated += 1
+                if val >= (1 << 62):
+                    bad = (m_, n_, val)
+                    break
+            if bad:
+                rep.violation('R07h', d, fn, what, '`%s` evaluates to %d for a graph with %d vertices and %d edges (unsigned wrap-around): the call throws '
+                              'std::length_error / std::bad_alloc on a valid input' % (arg.text(40), bad[2], bad[1], bad[0]), key='R07h|%s|%s' % (fn.g, d.callee['name']))
+            elif evaluated == 0:
+                rep.info('R07h', d, fn, what, 'not evaluable (%s)' % last_err)
             else:
-                rep.ok('R07h', d, fn, what, 'evaluates to %s for the empty graph' % val)
+                rep.ok('R07h', d, fn, what, 'no wrap-around in %d graph shapes' % evaluated)
     return n
 
 
@@ -317,6 +561,17 @@ def r07i(rep, prog):
             if not (d.k == 'CXXMemberCallExpr' and d.callee and d.callee['name'] in ('find_min', 'top') and d.object_arg() is not None):
                 continue
             okey = ex.key(d.object_arg())
+            okeys = {okey}
+            # `auto &cur = frontier.get();` declared in the loop body: the frontier under its other spelling
+            ov = ex.var_of(d.object_arg())
+            is_ref_local = False
+            if ov is not None and prog.vars[ov].get('kind') == 'local' and (prog.type(prog.vars[ov].get('ty')) or {}).get('s', '').rstrip().endswith('&'):
+                is_ref_local = True
+                od = ex.unique_def(fn, ov)
+                if od is not None:
+                    decl = [x for x in fn.walk() if x.k == 'VarDecl' and x.decl_id == ov]
+                    if decl and cfg.dominates(decl[0], d):
+                        okeys.add(ex.key(od))
             n += 1
             what = '`%s` is evaluated only when that frontier is not empty' % d.text(40)
 
@@ -325,12 +580,14 @@ def r07i(rep, prog):
                 if s_.k == 'CXXMemberCallExpr' and s_.callee and s_.callee['name'] == 'empty' and s_.object_arg() is not None:
                     k_ = ex.key(s_.object_arg())
                     # the frontier itself, or its queue member
-                    if k_ == okey or (isinstance(k_, tuple) and len(k_) == 3 and k_[0] == 'm' and k_[2] == okey):
+                    if k_ in okeys or (isinstance(k_, tuple) and len(k_) == 3 and k_[0] == 'm' and k_[2] in okeys):
                         return ex.f_atom('empty')
                 return None
             g = guards_formula(cfg, d, atomize)
             if 'empty' in ex.f_atoms(g) and implies(g, ex.f_not(ex.f_atom('empty'))):
                 rep.ok('R07i', d, fn, what, 'reached only after `!empty()` of the same frontier')
+            elif is_ref_local and len(okeys) == 1:
+                rep.undecided('R07i', d, fn, what, 'the frontier is reached through the reference `%s`, whose referent is not traced' % prog.vars[ov]['name'])
             else:
                 rep.violation('R07i', d, fn, what, 'the minimum is read on a path on which the frontier may be empty (the emptiness test does not come first): '
                               'd_ary_heap::top() then returns an already popped element', key='R07i|%s|%s' % (fn.g, d.text(30)))
@@ -466,13 +723,15 @@ def r07b(rep, prog):
     return len(classes), nsites
 
 
-def r07d(rep, prog):
+def r07d(rep, prog, only_files=None):
     """*c.end()"""
     roots = [f for f in prog.functions if f.g.startswith('witness::') or f.g == 'main']
     reach = {f.fref_id for f in ex.reachable_functions(prog, roots)} if roots else None
     n = 0
     for fn in prog.functions:
         if not fn.file.startswith(env.REPO + '/include'):
+            continue
+        if only_files is not None and not any(x in os.path.basename(fn.file) for x in only_files):
             continue
         for d in fn.walk():
             s = d
@@ -650,6 +909,9 @@ def run(rep, tier):
     rep.rule('R10s', 'R07c: %s conversions cannot overflow', floor=1)
     rep.rule('R10b', 'R07c: the optional trailing weight is initialised before sscanf (no read of an indeterminate double on unweighted lines)', floor=1)
     rep.rule('R07d', 'no dereference of end()', floor=0)
+    rep.rule('R07p', 'std::accumulate and friends sum in a type as wide as the elements (the initial value fixes the accumulator type)', floor=0)
+    rep.rule('R07q', 'no use of a moved-from standard container without re-initialisation', floor=0)
+    rep.rule('R07o', 'comparators handed to std::sort and the other ordering algorithms are irreflexive', floor=2)
     rep.rule('R07j', 'no recursion along the graph in library functions', floor=0)
     rep.rule('R06d', 'the scratch maps of the closing-path search are private to each search (no stale labels, no sharing between TBB tasks)', floor=2)
     rep.rule('R07i', 'the minimum of a frontier / heap is only read when it is non-empty', floor=1)
@@ -687,6 +949,9 @@ def run(rep, tier):
             rep.add('R20a', i.site, i.function, i.what, i.status, i.detail, key=i.key)
         nclasses, nsites = max(nclasses, c), max(nsites, s)
         nderef += r07d(rep, prog)
+        r07o(rep, prog)
+        r07p(rep, prog)
+        r07q(rep, prog)
         r07e(rep, prog)
         from . import c04
         sub4 = type(rep)(rep.prop, rep.tier)
@@ -719,6 +984,12 @@ def run(rep, tier):
     prep7 = type(rep)(rep.prop, rep.tier)
     r07k(prep7, pp)
     r07l(prep7, pp)
+    r07o(prep7, pp)
+    r07p(prep7, pp)
+    r07q(prep7, pp)
+    rep.positive('R07q', 'witness/positive/c07_shapes.cc', any(i.status == 'violation' and i.rule == 'R07q' for i in prep7.instances.values()))
+    rep.positive('R07p', 'witness/positive/c07_shapes.cc', any(i.status == 'violation' and i.rule == 'R07p' for i in prep7.instances.values()))
+    rep.positive('R07o', 'witness/positive/c07_shapes.cc', any(i.status == 'violation' and i.rule == 'R07o' for i in prep7.instances.values()))
     rep.positive('R07k', 'witness/positive/c07_shapes.cc', any(i.status == 'violation' and i.rule == 'R07k' for i in prep7.instances.values()))
     rep.positive('R07l', 'witness/positive/c07_shapes.cc', any(i.status == 'violation' and i.rule == 'R07l' for i in prep7.instances.values()))
     prep4 = type(rep)(rep.prop, rep.tier)
